@@ -179,8 +179,8 @@ def run(ctx: common.Ctx) -> None:
     quick = ctx.tier == "quick"
     scale = float(os.environ.get("VERIF_SCALE", "1"))
     repo = common.REPO
-    n_random = max(10, int((300 if quick else 40000) * min(scale, 1.0) ** 0.5 * max(scale, 1.0)))
-    n_random_san = max(5, int((40 if quick else 2500) * min(scale, 1.0) ** 0.5 * max(scale, 1.0)))
+    n_random = max(10, int((300 if quick else 60000) * min(scale, 1.0) ** 0.5 * max(scale, 1.0)))
+    n_random_san = max(5, int((40 if quick else 3000) * min(scale, 1.0) ** 0.5 * max(scale, 1.0)))
     thin_san = 4 if quick else 1
     n_modules = 9 if scale >= 0.5 else 4
     ctx.rule = ("one-operation functions (op x operand types mypy accepts x {plain, literal operand, augmented assignment, "
